@@ -43,11 +43,16 @@ def c17():
     return j
 
 
+def c17_all():
+    import c17_extra
+    return c17() + c17_extra.jobs()
+
+
 PROP = {
     "id": "C17",
-    "jobs": c17,
+    "jobs": c17_all,
     "bounds": {
-        "quick": "K part only. CollapseTimeframe: periods 1..=4, 2*period+1 symbolic finite candles, timing + open/high/low/close (volume only for period 1). HeikinAshi: recursion and selections over 2 steps on unrestricted floats (f32 and f64); output validity over 1 step (f64) and 2 steps (f32) for inputs with open inside [low, high] and prices in the magnitude window. RenkoOutput iterator: states reachable by one Renko::next with brick 0.25 from price 100, at most 4 blocks",
+        "quick": "X: CollapseTimeframe periods 1..16 (all fields incl. summed volume over the reals) and 255..1000 (timing, open, close, volume); Renko brick algebra from a concrete start (brick 1/4, 2-3 symbolic prices: bricks iff boundary reached, contiguity, equal relative size, direction, count, total volume). K: CollapseTimeframe: periods 1..=4, 2*period+1 symbolic finite candles, timing + open/high/low/close (volume only for period 1). HeikinAshi: recursion and selections over 2 steps on unrestricted floats (f32 and f64); output validity over 1 step (f64) and 2 steps (f32) for inputs with open inside [low, high] and prices in the magnitude window. RenkoOutput iterator: states reachable by one Renko::next with brick 0.25 from price 100, at most 4 blocks",
         "thorough": "as quick; HeikinAshi output validity over 2 steps at f64",
     },
     "outside": ["CollapseTimeframe volume sums for period > 1 and periods > 4 (X engine, real arithmetic)",
